@@ -23,9 +23,9 @@ G0 == [ cfg |-> [e |-> "none", max_samples |-> 0, max_flows |-> 0], fs0 |-> HS!F
 
 \* the JSON probe record as a HopStats probe record
 Pr(x) == IF x.st = "C" THEN [st |-> "C", ttl |-> x.ttl, rtt |-> x.rtt, host |-> x.host, seq |-> x.seq, sport |-> x.sport,
-                             dport |-> x.dport, kind |-> x.kind, tos |-> x.tos, eck |-> x.eck, ack |-> x.ack, round |-> x.round]
+                             dport |-> x.dport, kind |-> x.kind, tos |-> x.tos, ext |-> x.ext, eck |-> x.eck, ack |-> x.ack, round |-> x.round]
          ELSE IF x.st \in {"A", "F"} THEN [st |-> x.st, ttl |-> x.ttl, rtt |-> 0, host |-> 0, seq |-> x.seq, sport |-> x.sport,
-                             dport |-> x.dport, kind |-> "none", tos |-> -1, eck |-> -1, ack |-> -1, round |-> x.round]
+                             dport |-> x.dport, kind |-> "none", tos |-> -1, ext |-> <<>>, eck |-> -1, ack |-> -1, round |-> x.round]
          ELSE [st |-> x.st]
 RoundOf(e) == [largest |-> e.largest, probes |-> [i \in 1..Len(e.probes) |-> Pr(e.probes[i])]]
 
@@ -78,6 +78,7 @@ HopMatches(h, m) ==
     /\ h.samples = m.samples
     /\ h.addrs = m.addrs
     /\ h.lsport = m.lsport /\ h.ldport = m.ldport /\ h.lseq = m.lseq /\ h.lkind = m.lkind /\ h.tos = m.tos
+    /\ h.ext = m.ext
 C05_Exact == Full => \A i \in 1..Len(E.hops) : E.hops[i].ttl > 0 => HopMatches(E.hops[i], HS!HopOf(p.fs0, E.hops[i].ttl))
 \* derived floating-point figures against the exact rationals (cross-multiplied)
 C05_Derived == Full => \A i \in 1..Len(E.hops) :
